@@ -695,6 +695,7 @@ func registerExternals() {
 	ext["runtime.GOMAXPROCS"] = func(fr *frame, args []value) value { return 4 }
 	ext["runtime.NumGoroutine"] = func(fr *frame, args []value) value { return 1 }
 	ext["runtime.Caller"] = func(fr *frame, args []value) value { return tuple{uintptr(0), "", 0, false} }
+	ext["runtime.Callers"] = func(fr *frame, args []value) value { return 0 }
 	ext["runtime.SetFinalizer"] = func(fr *frame, args []value) value { return nil }
 	ext["runtime.KeepAlive"] = func(fr *frame, args []value) value { return nil }
 	ext["runtime/debug.Stack"] = func(fr *frame, args []value) value { return []value(nil) }
